@@ -480,6 +480,14 @@ class Profile:
         return float(self.ref(p))
 
 
+VALID_PROBES = {
+    "valid 2x2 (two knots)": [[0.0, 1.0], [5.0, 2.0]],
+    "valid 2x2 int tuple": ((0, 1), (2, 5)),
+    "valid 2x5 knots beyond [0, 1]": [[-0.5, 0.0, 0.25, 1.0, 2.0], [1.0, -2.0, 0.5, 3.0, 3.0]],
+    "3x2: third row ignored, two knots": [[0.0, 1.0], [1.0, 2.0], [3.0, 4.0]],
+    "python function": (lambda p: 1.0 + p),
+}
+
 INVALID_PROFILES = {
     "empty 2x0": [[], []],
     "2x1 (one knot)": [[0.5], [1.0]],
@@ -500,10 +508,11 @@ def rejected_profile_outcomes(eq):
     from raysect.core.math.function.float import Interpolator1DArray
     ok = lambda p: 1.0
     res = {}
-    for form, bad in INVALID_PROFILES.items():
+    for form, bad in list(INVALID_PROFILES.items()) + list(VALID_PROBES.items()):
         try:
-            a = np.array(bad, np.float64)
-            Interpolator1DArray(a[0, :], a[1, :], "cubic", "none", 0)
+            if not callable(bad):
+                a = np.array(bad, np.float64)
+                Interpolator1DArray(a[0, :], a[1, :], "cubic", "none", 0)
             expected = "accepted"
         except Exception as e:
             expected = type(e).__name__
@@ -1182,3 +1191,42 @@ def unit_basis_failures(E, evaluated, rng, n=6):
                 fails.append(dict(info, clause="map_vector3d with unit %s speed and zero others is not the rotated %s" % (("toroidal", "poloidal", "normal")[which], names[which]),
                                   got=got3, expected=want3))
     return fails, count
+
+
+def coq_parg(obj):
+    """The Coq term (Model/C12_Profile.v, type parg) describing a profile argument: callable, bare number,
+    1-d array, rectangular 2-d array (row by row) or ragged nesting."""
+    from common import qlist
+    if callable(obj):
+        return "AFun"
+    try:
+        a = np.array(obj, np.float64)
+    except ValueError:
+        return "ARagged"
+    if a.ndim == 0:
+        return "AScalar"
+    if a.ndim == 1:
+        return "(AVec %s)" % qlist([float(v) for v in a])
+    assert a.ndim == 2, a.shape
+    return "(AMat [%s])" % "; ".join(qlist([float(v) for v in row]) for row in a)
+
+
+def interpolation_weights(E, r, z):
+    """Weights of the running 2-D cubic interpolator at (r, z): the interpolants of unit-impulse grids on
+    the equilibrium's axes (6 x 6 window of nodes around the cell; the rest of the grid must contribute
+    exactly 0).  Returns (node index pairs, weights) or None when the window does not hold all the weight."""
+    from raysect.core.math.function.float import Interpolator2DArray
+    nr, nz = len(E.r), len(E.z)
+    i = min(max(int(np.searchsorted(E.r, r, side="right")) - 1, 0), nr - 2)
+    j = min(max(int(np.searchsorted(E.z, z, side="right")) - 1, 0), nz - 2)
+    nodes = [(a, b) for a in range(max(0, i - 2), min(nr, i + 4)) for b in range(max(0, j - 2), min(nz, j + 4))]
+    rest = np.ones((nr, nz))
+    ws = []
+    for (a, b) in nodes:
+        g = np.zeros((nr, nz))
+        g[a, b] = 1.0
+        rest[a, b] = 0.0
+        ws.append(float(Interpolator2DArray(E.r, E.z, g, "cubic", "none", 0, 0)(r, z)))
+    if float(Interpolator2DArray(E.r, E.z, rest, "cubic", "none", 0, 0)(r, z)) != 0.0:
+        return None
+    return nodes, ws
